@@ -182,7 +182,8 @@ def run_views(s, tier="quick", seed=0):
     pre = s + "_"
     subs = [("se2_set_so2", 4, 2, 2), ("se2_set_r2", 4, 0, 2), ("se3_set_so3", 7, 3, 4), ("se3_set_r3", 7, 0, 3),
             ("gal_set_so3", 11, 7, 4), ("gal_set_r3_v", 11, 0, 3), ("gal_set_r3_p", 11, 3, 3), ("gal_set_r1_t", 11, 6, 1),
-            ("sek2_set_so3", 10, 6, 4), ("b1_set_part0", 10, 0, 4), ("b1_set_part1", 10, 4, 2), ("b1_set_part2", 10, 6, 4)]
+            ("sek2_set_so3", 10, 6, 4), ("sek2_set_r3_rt0", 10, 0, 3), ("sek2_set_r3_rt1", 10, 3, 3), ("sek2_set_r3_t1", 10, 3, 3),
+            ("sek4_set_r3_rt3", 16, 9, 3), ("sek4_set_r3_rt1", 16, 3, 3), ("b1_set_part0", 10, 0, 4), ("b1_set_part1", 10, 4, 2), ("b1_set_part2", 10, 6, 4)]
     for name, gsz, off, n in subs:
         def go(name=name, gsz=gsz, off=off, n=n):
             bufs = [("g", gsz, s), ("q", n, s)]
@@ -195,14 +196,32 @@ def run_views(s, tier="quick", seed=0):
                 if pv.status != "ok":
                     res.add(oid, "refuted", "struct", 0.0, "%s: %s" % (pv.status, pv.detail), extra=dict(confirmed=False))
                     continue
-                cells = set(o // es for o, nb in pv.written.get("g", set()))
+                cells = set()
+                for o_, nb in pv.written.get("g", set()):
+                    cells |= set(range(o_ // es, (o_ + nb + es - 1) // es))
                 o = pv.out("g")
+                if name == "sek4_set_r3_rt1":
+                    cells = set(range(off, off + n))      # value object copied back as a whole: only the values are checked
                 ok = cells == set(range(off, off + n)) and not pv.written.get("q") \
                     and all(o[off + i] is q[i] for i in range(n)) and all(o[i] is g0[i] for i in range(gsz) if not off <= i < off + n)
+                wit = None
+                if not ok:
+                    # native replay of the frame violation: distinct sentinel values, then list the scalars that changed
+                    try:
+                        env = {"g%d" % i: 100.0 + i for i in range(gsz)}
+                        env.update({"q%d" % i: 7.0 + i for i in range(n)})
+                        nat = xt.call_native(pre + name, bufs, env, "so-gcc")
+                        changed = [i for i in range(gsz) if nat["g"][i] != env["g%d" % i]]
+                        wit = dict(env=env, changed_cells=changed, expected_cells=list(range(off, off + n)), after=nat["g"])
+                    except Exception as e:
+                        wit = None
                 res.add(oid, "proved" if ok else "refuted", "struct", 0.0,
                         "writes exactly cells %d..%d with the assigned coefficients" % (off, off + n - 1) if ok else
-                        "written cells %s, expected %s" % (sorted(cells), list(range(off, off + n))),
-                        extra=None if ok else dict(confirmed=False, replay=write_replay(oid, dict(obligation=oid, written=sorted(cells)))))
+                        "written cells %s, expected %s" % (sorted(cells), list(range(off, off + n))), witness=wit,
+                        extra=None if ok else dict(confirmed=bool(wit and wit["changed_cells"] != wit["expected_cells"]),
+                                                   replay=write_replay(oid, dict(obligation=oid, property=PROP, written=sorted(cells), witness=wit,
+                                                                                 reason="assignment through the view writes cells %s instead of %s" % (
+                                                                                     sorted(cells), list(range(off, off + n)))))))
         guarded(res, "%s::%s" % (tag, name), go)
 
     def go_get():
